@@ -275,6 +275,7 @@ func runC13(cx *Ctx, r *Report) {
 	}
 	cx.c13Pairing(r, get)
 	cx.c13Aborts(r, get)
+	cx.recordListIndexRule(r, "abort-class-index")
 	r.requireCount("dequeue", 6)
 }
 
@@ -532,6 +533,48 @@ func (cx *Ctx) singleEntryRule(r *Report, get func(Entry) *c13Walk) {
 		}
 		if nHand == 0 {
 			r.toolErr("no next-batch scheduling found in the expired-batch body")
+		}
+	}
+	// ------------------------------------------------------------ expiry offset agrees with its reader
+	// The expired-batch body reconstructs the start of the batch it closes as
+	// (height − Timeout) and schedules the next batch relative to it. Whoever puts a
+	// context on the expired-batch list must therefore use (height + Timeout) of that
+	// context - for a skipped batch too: an entry at height+1 makes the reader place the
+	// next batch Timeout−1 blocks early, every time, and a repeated context runs through
+	// its total at the wrong pace.
+	{
+		nOff := 0
+		for _, e := range all {
+			if e.Module != "service" && e.Module != "oracle" && e.Module != "random" {
+				continue
+			}
+			cw := get(e)
+			kc := keyCounter{}
+			for _, x := range cw.evs {
+				if x.ev.Kind != "store.set" || !hasPrefix(x.ev, "service:ExpiredRequestBatchKey=0x09") {
+					continue
+				}
+				h := qKeyArg(x.ev, 1)
+				nOff++
+				ok := strings.HasPrefix(h, "(sdk.Context.BlockHeight() + ") && strings.HasSuffix(h, ".Timeout)") && !strings.Contains(h[len("(sdk.Context.BlockHeight() + "):], " + ") && !strings.Contains(h[len("(sdk.Context.BlockHeight() + "):], " - ")
+				r.check(ok, "expiry-offset", kc.next(entryKey(&e)), x.ev.Pos(cx), "the batch is put on the expired list at height + the context's Timeout, the offset the expired-batch body subtracts again", "a batch is put on the expired-batch list at height "+trunc(h, 120)+" instead of (current height + the context's Timeout): the expired-batch body computes the next batch as (its height − Timeout + RepeatedFrequency), so the following batches are issued at the wrong heights (chain "+x.ev.Fr.String()+")")
+			}
+		}
+		if nOff < 2 {
+			r.toolErr("only %d writes of the expired-batch list found (≥2 confirmed)", nOff)
+		}
+		// the reader side: next = (height − T) + F with T a Timeout and F a RepeatedFrequency
+		for _, x := range svcEnd.evs {
+			if x.ev.Kind != "store.set" || !hasPrefix(x.ev, "service:NewRequestBatchKey=0x10") {
+				continue
+			}
+			cf, _ := closureAncestor(x.ev)
+			if cf == nil || cf.Fn != expBody {
+				continue
+			}
+			h := qKeyArg(x.ev, 1)
+			ok := strings.HasPrefix(h, "((sdk.Context.BlockHeight() - ") && strings.Contains(h, ".Timeout") && strings.Contains(h, ".RepeatedFrequency") && strings.Contains(h, ") + ")
+			r.check(ok, "expiry-offset", "service.EndBlock|next-batch", x.ev.Pos(cx), "the next batch is scheduled at (height − Timeout) + RepeatedFrequency", "the expired-batch body schedules the next batch at "+trunc(h, 160)+", not at (height − Timeout) + RepeatedFrequency")
 		}
 	}
 	// ------------------------------------------------------------ frequency ≥ timeout is kept
@@ -1906,7 +1949,6 @@ func (cx *Ctx) unitIntervalAssertion(pn *ssa.Panic) string {
 	return ""
 }
 
-
 // mayReturnNonFalse: a return of fn whose single boolean result is not the constant
 // false - looking through φs and through calls to functions (helpers, the method behind
 // a bound-method wrapper) that themselves always return false. nil when fn always
@@ -1955,7 +1997,6 @@ func mayReturnNonFalse(fn *ssa.Function, depth int) ssa.Instruction {
 	}
 	return bad
 }
-
 
 // c13DequeueRule: the per-entry dequeue obligations (Q1) for the block-handler work lists
 // selected by only (nil: all of them). Shared with C08 (service lists) and C18 (random).
@@ -2232,4 +2273,104 @@ func (cx *Ctx) c13DequeueRule(r *Report, get func(Entry) *c13Walk, only func(q c
 			}
 		}
 	}
+}
+
+// recordListIndexRule (C13 abort class, shared with C16): on a block-handler or service
+// callback path, a constant index into a list held in a FIELD of a record (binding.Deposit[0],
+// htlc.Amount[0]) is taken only under a test of that list's length / emptiness in the same
+// function, or where the record's creation guarantees the length (reviewed). A stored
+// list can legitimately become empty (a deposit slashed to nothing under an accepted
+// slash fraction of 1) and the index then aborts the block handler - the chain halts.
+var recordIndexReviewed = map[string]string{
+	"htlc|HTLC.Amount": "a cross-chain transfer is created only with exactly one coin (len(amount) == 1 is checked by the creating handler, C03/C04 limit rules)",
+}
+
+func (cx *Ctx) recordListIndexRule(r *Report, rule string) int {
+	reach := cx.Reachable(cx.entryFns(cx.EntriesOf("abci", "callback")), nil)
+	n := 0
+	seen := map[string]bool{}
+	for _, f := range reach.Order {
+		if f.Blocks == nil || !isConsensusCode(cx, f) {
+			continue
+		}
+		for _, b := range f.Blocks {
+			for _, ins := range b.Instrs {
+				var x, idx ssa.Value
+				switch y := ins.(type) {
+				case *ssa.IndexAddr:
+					x, idx = y.X, y.Index
+				case *ssa.Index:
+					x, idx = y.X, y.Index
+				default:
+					continue
+				}
+				if _, isSlice := x.Type().Underlying().(*types.Slice); !isSlice {
+					continue
+				}
+				c, isConst := idx.(*ssa.Const)
+				if !isConst || c.Value == nil {
+					continue
+				}
+				// the list is a field of an irismod record
+				var fieldOf string
+				v := x
+				if u, ok := v.(*ssa.UnOp); ok && u.Op == token.MUL {
+					v = u.X
+				}
+				switch fa := v.(type) {
+				case *ssa.FieldAddr:
+					if nt := namedOf(fa.X.Type()); nt != nil && nt.Obj().Pkg() != nil && strings.HasPrefix(nt.Obj().Pkg().Path(), modPrefix) {
+						fieldOf = nt.Obj().Name() + "." + fieldNameShort(fa.X.Type(), fa.Field)
+					}
+				case *ssa.Field:
+					if nt := namedOf(fa.X.Type()); nt != nil && nt.Obj().Pkg() != nil && strings.HasPrefix(nt.Obj().Pkg().Path(), modPrefix) {
+						fieldOf = nt.Obj().Name() + "." + fieldNameShort(fa.X.Type(), fa.Field)
+					}
+				}
+				if fieldOf == "" {
+					continue
+				}
+				mod := moduleOf(funcPkgPath(f))
+				key := mod + "|" + fieldOf + "|" + anchorOf(cx, f)
+				if seen[key] {
+					continue
+				}
+				seen[key] = true
+				n++
+				pos := cx.P.Pos(ins.Pos())
+				guard := ""
+				xs := pureExpr(x, 0)
+				for _, df := range dominatingFacts(b) {
+					cs := pureExpr(df.Cond, 0)
+					if xs != "" && cs != "" && strings.Contains(cs, xs) && (strings.Contains(cs, "len(") || strings.Contains(cs, "Empty") || strings.Contains(cs, "IsZero") || strings.Contains(cs, "Len(")) {
+						guard = cs
+					}
+				}
+				if guard == "" {
+					// len(list) compared in a dominating condition (len is a builtin call, not pure-rendered)
+					for _, df := range dominatingFacts(b) {
+						if bo, ok := df.Cond.(*ssa.BinOp); ok {
+							for _, side := range []ssa.Value{bo.X, bo.Y} {
+								if lc, ok := side.(*ssa.Call); ok {
+									if bi, isB := lc.Common().Value.(*ssa.Builtin); isB && bi.Name() == "len" && len(lc.Common().Args) == 1 && sameValue(lc.Common().Args[0], x) {
+										guard = "len(" + xs + ") " + bo.Op.String() + " …"
+									}
+								}
+							}
+						}
+					}
+				}
+				switch {
+				case guard != "":
+					r.ok(rule, key, pos, "constant index into "+fieldOf+" under the length test "+guard)
+				case recordIndexReviewed[mod+"|"+fieldOf] != "":
+					r.ok(rule, key, pos, "constant index into "+fieldOf+", reviewed: "+recordIndexReviewed[mod+"|"+fieldOf])
+				default:
+					r.violate(rule, key, pos, "constant index ["+c.Value.ExactString()+"] into the stored list "+fieldOf+" in "+shortFn(f)+" without a test of its length on a block-handler path ("+reach.Path(f)+"): when the list is empty (a deposit slashed to nothing, a record emptied by an earlier step) the begin/end blocker panics with index out of range and the chain halts")
+				}
+			}
+		}
+	}
+	r.ok(rule, "scan", "", fmt.Sprintf("%d constant indexes into lists held in record fields on block-handler / callback paths, each under a length test or reviewed", n))
+	return n
 }
